@@ -13,6 +13,7 @@ CONSTANTS
     Dedup = TRUE
     FailCleansUp = FALSE
     MaxDeaths = 0
+    CacheLookup = FALSE
     StopAtFirstError = FALSE
 INVARIANTS
     TypeOK
